@@ -235,7 +235,18 @@ impl Node {
         }
 
         // Step 3. Replace all with documentFragment within selectedcontent.
-        *selectedcontent.children.borrow_mut() = document_fragment;
+        for child_clone in &document_fragment {
+            child_clone
+                .parent
+                .set(Some(Rc::downgrade(&selectedcontent)));
+        }
+        let old_children = mem::replace(
+            &mut *selectedcontent.children.borrow_mut(),
+            document_fragment,
+        );
+        for old_child in old_children {
+            old_child.parent.set(None);
+        }
     }
 
     /// Clones the node and all of its descendants, returning a handle to the new subtree.
@@ -243,17 +254,22 @@ impl Node {
     /// This function will run into infinite recursion when the DOM tree contains cycles and it makes
     /// no attempts to guard against that.
     fn clone_with_subtree(&self) -> Rc<Self> {
-        let children = self
+        let children: Vec<Rc<Self>> = self
             .children
             .borrow()
             .iter()
             .map(|child| child.clone_with_subtree())
             .collect();
-        Rc::new(Self {
-            parent: Cell::new(self.parent()),
+        // The clone is not in any tree yet; its children belong to the clone.
+        let clone = Rc::new(Self {
+            parent: Cell::new(None),
             data: self.data.clone(),
             children: RefCell::new(children),
-        })
+        });
+        for child in clone.children.borrow().iter() {
+            child.parent.set(Some(Rc::downgrade(&clone)));
+        }
+        clone
     }
 }
 
